@@ -6,6 +6,7 @@ import time
 import types
 import typing
 
+import h11
 import h2.config
 import h2.connection
 import h2.events
@@ -17,6 +18,7 @@ from .._exceptions import (
     ConnectionNotAvailable,
     LocalProtocolError,
     RemoteProtocolError,
+    map_exceptions,
 )
 from .._models import Origin, Request, Response
 from .._synchronization import AsyncLock, AsyncSemaphore, AsyncShieldCancellation
@@ -220,6 +222,16 @@ class AsyncHTTP2Connection(AsyncConnectionInterface):
         Send the request headers to a given stream ID.
         """
         end_stream = not has_body_headers(request)
+
+        # The h2 package does not check outgoing methods, targets, header names
+        # or header values for illegal characters. Apply the same validation as
+        # for HTTP/1.1, before anything is encoded or written.
+        with map_exceptions({h11.LocalProtocolError: LocalProtocolError}):
+            h11.Request(
+                method=request.method,
+                target=request.url.target,
+                headers=request.headers,
+            )
 
         # In HTTP/2 the ':authority' pseudo-header is used instead of 'Host'.
         # In order to gracefully handle HTTP/1.1 and HTTP/2 we always require
